@@ -323,6 +323,13 @@ class CopulaCouplingState(FunctionContract):
         from pyvc.lib import Model
         from pyvc import ctx
         grid, ax, h, o = wf_grid(vc, d=2, quantified=False)      # explicit instances of the ordering below
+        # the axes of a grid may differ (credit grids with one default level per name): the second coordinate has its OWN axis
+        # (same length and origin index, as the grid constructors build them)
+        ax1 = vc.seq("axis_of_coordinate1", "r", min_len=3)
+        vc.assume(And(ax1.length == ax.length, ax1.raw(o) == 0))
+        axes = [ax, ax1]
+        grid.fields["axes"] = axes
+        grid.fields["truncations"] = [(a_.raw(0), a_.raw(a_.length - 1)) for a_ in axes]
         case, _, history = case.partition("|")
         inc = vc.ints("increment", 2)
         u = vc.real("coupling_uniform")
@@ -330,9 +337,9 @@ class CopulaCouplingState(FunctionContract):
         want = [par[x] for x in case.split("-")]
         ps = [o + i for i in inc]
         vc.assume(And(o % 2 == 0, ax.length % 2 == 1, u >= 0, u <= 1, *[And(p >= 1, p <= ax.length - 2, p % 2 == w) for p, w in zip(ps, want)]))
-        for p_ in ps:
+        for a_, p_ in zip(axes, ps):
             for j in (p_ - 1, p_):
-                vc.assume(ax.raw(j) < ax.raw(j + 1))
+                vc.assume(a_.raw(j) < a_.raw(j + 1))
 
         def mass(interp, a, b, indices=None):
             a, b = tuple(a), tuple(b)
@@ -349,9 +356,9 @@ class CopulaCouplingState(FunctionContract):
             inc0 = vc.ints("earlier_increment", 2)
             ps0 = [o + i for i in inc0]
             vc.assume(And(*[And(p >= 1, p <= ax.length - 2, p % 2 == w) for p, w in zip(ps0, (0, 1))]))
-            for p_ in ps0:
+            for a_, p_ in zip(axes, ps0):
                 for j in (p_ - 1, p_):
-                    vc.assume(ax.raw(j) < ax.raw(j + 1))
+                    vc.assume(a_.raw(j) < a_.raw(j + 1))
             u0 = vc.real("earlier_coupling_uniform")
             vc.assume(And(u0 >= 0, u0 <= 1))
             vc.ghost.update(u=u0)
@@ -360,16 +367,16 @@ class CopulaCouplingState(FunctionContract):
                 vc.method(sim, "_CouplingLevyCopulaSimulation__coupling_state", tuple(inc0))
             except _PR:
                 vc.assume(False)        # the earlier jump raised (degenerate cell): not the history this case is about
-        vc.ghost.update(ax=ax, o=o, u=u, ps=ps, case=case)
+        vc.ghost.update(ax=ax, axes=axes, o=o, u=u, ps=ps, case=case)
         return dict(self=sim, increment=tuple(inc))
 
     def ensures(self, result, self_=None, increment=None, **kw):
         from pyvc import ctx
         g = ctx.PATH.ghost
-        ax, ps, u, case = g["ax"], g["ps"], g["u"], g["case"]
-        x = [ax.raw(p) for p in ps]
-        lo = [cell_lo(ax, p) for p in ps]
-        hi = [cell_hi(ax, p) for p in ps]
+        axes, ps, u, case = g["axes"], g["ps"], g["u"], g["case"]
+        x = [a_.raw(p) for a_, p in zip(axes, ps)]
+        lo = [cell_lo(a_, p) for a_, p in zip(axes, ps)]
+        hi = [cell_hi(a_, p) for a_, p in zip(axes, ps)]
         res = list(result) if isinstance(result, (tuple, np.ndarray)) else None
         if res is None or len(res) != 2:
             return {"two-coordinates": False}
@@ -383,12 +390,12 @@ class CopulaCouplingState(FunctionContract):
         for k in even:
             out[f"coordinate{k}-on-the-coarse-grid-is-kept"] = res[k] == x[k]
         for k in odd:
-            out[f"coordinate{k}-moves-to-an-adjacent-coarse-state"] = Or(res[k] == ax.raw(ps[k] - 1), res[k] == ax.raw(ps[k] + 1))
+            out[f"coordinate{k}-moves-to-an-adjacent-coarse-state"] = Or(res[k] == axes[k].raw(ps[k] - 1), res[k] == axes[k].raw(ps[k] + 1))
         # the first alternative tried by the code is the all-(-1) neighbour: its share of the FINE CELL's joint mass
         a = [lo[k] if k in even else lo[k] for k in (0, 1)]
         b = [hi[k] if k in even else x[k] for k in (0, 1)]
         share = mass2(a, b)
-        first = And(*[res[k] == ax.raw(ps[k] - 1) for k in odd])
+        first = And(*[res[k] == axes[k].raw(ps[k] - 1) for k in odd])
         out["first-neighbour-chosen-with-its-share-of-the-fine-cell's-joint-mass"] = Implies(cell > 0, first == (u * cell <= share))
         return out
 
@@ -413,6 +420,31 @@ class CopulaCouplingState(FunctionContract):
         uni = U()
         case, _, history = case.partition("|")
         cm.dimension_model = lambda: 2
+        if "adjacent" in clause or "requires" in clause or "kept" in clause or "copied" in clause:
+            # a grid whose axes differ: credit grid with one default level per name, refined once
+            from rpylib.grid.spatial import CTMCCredit
+            g2 = CTMCCredit(h=0.05, level_a=[-0.2, -0.12], model=cm)
+            g2.refine()
+            sim2 = CouplingLevyCopulaSimulation(SimpleNamespace(grid=g2, model=cm, _uniform=uni))
+            f2 = getattr(sim2, "_CouplingLevyCopulaSimulation__coupling_state")
+            o2 = g2.origin_coordinate.value
+            wp = [0 if w == "even" else 1 for w in case.split("-")]
+            for inc in ((-2, -3), (-4, -5), (2, 3), (-6, -3), (-3, -2), (-5, -4), (-3, -3), (-5, -3), (-2, -4)):
+                if [i % 2 for i in inc] != wp:
+                    continue
+                pos = [o2[k] + inc[k] for k in (0, 1)]
+                x = [float(g2.axes[k][pos[k]]) for k in (0, 1)]
+                for uu in (0.05, 0.5, 0.95):
+                    uni.u = uu
+                    try:
+                        r = [float(v) for v in f2(tuple(inc))]
+                    except Exception as e:
+                        return (True, {"grid": "CTMCCredit levels (-0.2, -0.12), refined once", "increment": inc, "exception": f"{type(e).__name__}: {e}"})
+                    for k in (0, 1):
+                        ok = (r[k] == x[k]) if not wp[k] else (r[k] in (float(g2.axes[k][pos[k] - 1]), float(g2.axes[k][pos[k] + 1])))
+                        if not ok:
+                            return (True, {"grid": "CTMCCredit levels (-0.2, -0.12), refined once", "increment": inc, "fine_state": x, "coupling_uniform": uu, "coarse_state": r,
+                                           "coordinate": k, "adjacent_states_on_its_axis": [float(g2.axes[k][pos[k] - 1]), float(g2.axes[k][pos[k] + 1])]})
         sim = CouplingLevyCopulaSimulation(SimpleNamespace(grid=grid, model=cm, _uniform=uni))
         f = getattr(sim, "_CouplingLevyCopulaSimulation__coupling_state")
         if history:
